@@ -136,10 +136,11 @@ def cases_v(terms):
     return "\n".join(lines) + "\n"
 
 
-def slender_marginal(ctx, text, r3):
-    """the run at -e 1e-3 stopped within a factor 50 of that error as well, and -e 0.1 solves"""
-    m = re.search(r"error ([-+0-9.eE]+) in equation \d+ \(max allowed is ([-+0-9.eE]+)\)", (r3.stderr or r3.stdout) or "")
-    if r3.status == 0 or not m or float(m.group(1)) > 50 * float(m.group(2)):
+def slender_marginal(ctx, text, span, height, msg):
+    """the listed finding's input class: a grid whose span : level ratio is 1 : 90 or beyond (either way), on which
+    solve stops in its convergence check (loudly) at the default error, and which solves with -e 0.1"""
+    ratio = max(span / height, height / span) if span > 0 and height > 0 else 0
+    if ratio < 90 or not re.search(r"Couldn't solve the system of equations: error [-+0-9.eE]+ in equation \d+", msg or ""):
         return False
     r4 = cli.run(ctx, ["solve", "-e", "0.1", "g.inkfem"], files={"g.inkfem": text}, name="c19s", timeout=300)
     return r4.status == 0
@@ -194,8 +195,8 @@ def run(ctx):
                 if marginal and r3.status == 0 and listed:
                     known.add("K-C19-default-error-vs-load-magnitude: generate --spans %d --levels %d --span %s --level %s --load %s does not solve at the default --error 1e-5 (%s), solves with -e 1e-3"
                               % (s, l, G_dec(span), G_dec(height), G_dec(load), m.group(0)[:60]))
-                elif marginal and any(f.get("id") == "K-C19-slender-frames-marginal-convergence" for f in C.load_known().get("findings", [])) and slender_marginal(ctx, r.stdout, r3):
-                    known.add("K-C19-slender-frames-marginal-convergence: generate --spans %d --levels %d --span %s --level %s --load %s stops within a factor 50 of the allowed error at 1e-5 and at 1e-3, solves with -e 0.1"
+                elif any(f.get("id") == "K-C19-slender-frames-marginal-convergence" for f in C.load_known().get("findings", [])) and slender_marginal(ctx, r.stdout, span, height, msg):
+                    known.add("K-C19-slender-frames-marginal-convergence: generate --spans %d --levels %d --span %s --level %s --load %s (span : level beyond 1 : 90) stops in the convergence check at the default error, solves with -e 0.1"
                               % (s, l, G_dec(span), G_dec(height), G_dec(load)))
                 elif span >= 1 and height >= 1:
                     # spans of 0.00025 against a steel section are outside any sensible use; default-like lengths must solve
